@@ -68,9 +68,11 @@ def generate(rng, tier):
     if tier == "thorough":
         for w in range(1, 256):
             for h in range(1, 255 // w + 1):
-                geos.append((rng.randint(1, 4), h, w))
+                geos.append((rng.randint(1, 4) if rng.random() < 0.8 else rng.choice([8, 9, 10, 16, 17, 19, 20, 21, 32, 33, 64]), h, w))
     else:
-        geos = [(2, 3, 4), (1, 1, 1), (4, 1, 255), (1, 255, 1), (3, 15, 17), (2, 10, 8), (2, 5, 51), (1, 2, 127)]
+        geos = [(2, 3, 4), (1, 1, 1), (4, 1, 255), (1, 255, 1), (3, 15, 17), (2, 10, 8), (2, 5, 51), (1, 2, 127),
+                # digit counts at and beyond the widths of the machine integers / small stack buffers a cell might be squeezed through
+                (8, 2, 3), (9, 2, 2), (10, 3, 2), (16, 2, 2), (17, 2, 2), (19, 1, 3), (20, 2, 2), (21, 1, 2), (32, 1, 2), (33, 2, 1), (64, 1, 1), (255, 1, 1)]
         for _ in range(20):
             w = rng.randint(1, 40); h = rng.randint(1, 255 // w)
             geos.append((rng.randint(1, 4), h, w))
